@@ -101,6 +101,8 @@ def parseLines (look : Look) : List Line → List (Key × Str) → Except Err (L
 inductive Node
   | file (ls : List Line)
   | dir
+  | notdir   -- nothing exists at the path because a *parent* is a regular file: `os.Stat` fails with ENOTDIR,
+             -- which `os.IsNotExist` does not recognise
 deriving Repr, DecidableEq
 
 abbrev FS := Str → Option Node
@@ -115,11 +117,13 @@ deriving Repr, DecidableEq
 def loadMappingFile (fs : FS) (path format : Str) (look : Look) : Except Err (List (Key × Str)) :=
   match fs path with
   | none => .error .read                       -- os.Open fails
-  | some nd =>
+  | some .notdir => .error .read               -- os.Open fails: "not a directory"
+  | some .dir =>
     if format ≠ [] then .error .format         -- no format is registered in the library
-    else match nd with
-      | .dir => .error .read                   -- io.ReadAll: "is a directory"
-      | .file ls => parseLines look ls []
+    else .error .read                          -- io.ReadAll: "is a directory"
+  | some (.file ls) =>
+    if format ≠ [] then .error .format
+    else parseLines look ls []
 
 /-- `loadEnvFile`: a missing file is an error only when required -/
 def loadEnvFile (fs : FS) (f : EnvFile) (look : Look) : Except Err (List (Key × Str)) :=
